@@ -45,6 +45,7 @@ func scaleRuns(n int) int {
 // candidate violation, from an END record or from a dead child
 type violation struct {
 	OneCPU    bool
+	CPUQuota  bool
 	ChunkFrom int
 	Flavour   string
 	Run       int
@@ -123,7 +124,10 @@ func (cs *checkState) run() int {
 			gmp := [...]int{2, 1, 4, 3}[(from/chunk)%4]
 			// every seventh chunk runs pinned to ONE processor (runtime.NumCPU() == 1): a configuration some code special-cases
 			one := (from/chunk)%7 == 3
-			tasks = append(tasks, task{bin, proto.Spec{Prop: cs.prop, Tier: cs.tier, BaseSeed: cs.seed, From: from, To: to, Flavour: f.Flavour, GoMaxProcs: gmp, OneCPU: one}})
+			// every eleventh chunk of the proof-of-work checks runs where the process sees a container CPU quota of half a
+			// processor: code that sizes itself by the quota meets a value below one
+			quota := cs.plan.Engine == "powsim" && (from/chunk)%11 == 5 && !one
+			tasks = append(tasks, task{bin, proto.Spec{Prop: cs.prop, Tier: cs.tier, BaseSeed: cs.seed, From: from, To: to, Flavour: f.Flavour, GoMaxProcs: gmp, OneCPU: one, CPUQuota: quota}})
 		}
 	}
 	fmt.Printf("verif: built %d flavour(s) in %.1fs; %d chunks\n", len(fl), time.Since(cs.start).Seconds(), len(tasks))
@@ -151,11 +155,24 @@ func (cs *checkState) run() int {
 				mu.Lock()
 				for i := range r.ends {
 					e := &r.ends[i]
+					// configurations of the process the run was executed in count as injected conditions of the run
+					if t.spec.OneCPU {
+						if e.Faults == nil {
+							e.Faults = map[string]int{}
+						}
+						e.Faults["process_pinned_to_one_cpu"] = 1
+					}
+					if t.spec.CPUQuota && quotaPossible() {
+						if e.Faults == nil {
+							e.Faults = map[string]int{}
+						}
+						e.Faults["container_cpu_quota_of_half_a_cpu"] = 1
+					}
 					agg.add(t.spec.Flavour, e)
 					if e.Class != "" {
-						viols = append(viols, violation{OneCPU: t.spec.OneCPU, ChunkFrom: t.spec.From, Flavour: t.spec.Flavour, Run: e.Run, Seed: e.Seed, Class: e.Class, Message: e.Message, Sig: e.Signature, Config: e.Config, Choices: e.Choices})
+						viols = append(viols, violation{OneCPU: t.spec.OneCPU, CPUQuota: t.spec.CPUQuota, ChunkFrom: t.spec.From, Flavour: t.spec.Flavour, Run: e.Run, Seed: e.Seed, Class: e.Class, Message: e.Message, Sig: e.Signature, Config: e.Config, Choices: e.Choices})
 						for _, m := range e.More {
-							viols = append(viols, violation{OneCPU: t.spec.OneCPU, ChunkFrom: t.spec.From, Flavour: t.spec.Flavour, Run: e.Run, Seed: e.Seed, Class: m.Class, Message: m.Message, Sig: m.Signature, Config: e.Config, Choices: e.Choices})
+							viols = append(viols, violation{OneCPU: t.spec.OneCPU, CPUQuota: t.spec.CPUQuota, ChunkFrom: t.spec.From, Flavour: t.spec.Flavour, Run: e.Run, Seed: e.Seed, Class: m.Class, Message: m.Message, Sig: m.Signature, Config: e.Config, Choices: e.Choices})
 						}
 					}
 				}
@@ -170,7 +187,7 @@ func (cs *checkState) run() int {
 						}
 						continue
 					}
-					viols = append(viols, violation{OneCPU: t.spec.OneCPU, ChunkFrom: t.spec.From, Flavour: t.spec.Flavour, Run: d.Begin.Run, Seed: d.Begin.Seed, Class: d.Class, Message: d.Note, IsDeath: true})
+					viols = append(viols, violation{OneCPU: t.spec.OneCPU, CPUQuota: t.spec.CPUQuota, ChunkFrom: t.spec.From, Flavour: t.spec.Flavour, Run: d.Begin.Run, Seed: d.Begin.Seed, Class: d.Class, Message: d.Note, IsDeath: true})
 				}
 				for _, st := range r.stalls {
 					agg.addStall(st.Class)
@@ -381,10 +398,10 @@ func (cs *checkState) confirmAndWrite(v violation, deadline time.Time) (path str
 		return "", false, err.Error()
 	}
 	rf := proto.ReplayFile{Property: cs.prop, Engine: cs.plan.Engine, Flavour: v.Flavour, Class: v.Class, Message: v.Message, Signature: v.Sig,
-		Seed: v.Seed, Tier: cs.tier, Run: v.Run, Config: v.Config, Choices: v.Choices, OneCPU: v.OneCPU}
+		Seed: v.Seed, Tier: cs.tier, Run: v.Run, Config: v.Config, Choices: v.Choices, OneCPU: v.OneCPU, CPUQuota: v.CPUQuota}
 	if v.IsDeath || rf.Config == nil {
 		// re-run that single run with journalling to learn its configuration and the schedule up to the death
-		r := runChild(bin, proto.Spec{Prop: cs.prop, Tier: cs.tier, BaseSeed: cs.seed, From: v.Run, To: v.Run + 1, Flavour: v.Flavour, Verbose: true, OneCPU: v.OneCPU}, 10*time.Minute)
+		r := runChild(bin, proto.Spec{Prop: cs.prop, Tier: cs.tier, BaseSeed: cs.seed, From: v.Run, To: v.Run + 1, Flavour: v.Flavour, Verbose: true, OneCPU: v.OneCPU, CPUQuota: v.CPUQuota}, 10*time.Minute)
 		switch {
 		case r.trouble != "":
 			return "", false, r.trouble
@@ -508,7 +525,8 @@ func replayClass(bin, path, flavour string) (class, note string) {
 // replayClassWant is replayClass for runs that may end with several violations: if one of them has the
 // class want, that one is returned.
 func replayClassWant(bin, path, flavour, want string) (class, note string) {
-	r := runChild(bin, proto.Spec{Replay: path, Flavour: flavour, OneCPU: replayOneCPU(path)}, 10*time.Minute)
+	one, quota := replayOneCPU(path)
+	r := runChild(bin, proto.Spec{Replay: path, Flavour: flavour, OneCPU: one, CPUQuota: quota}, 10*time.Minute)
 	switch {
 	case r.trouble != "":
 		return "trouble", r.trouble
@@ -533,16 +551,17 @@ func replayClassWant(bin, path, flavour, want string) (class, note string) {
 }
 
 // replayOneCPU reports whether the replay file asks for a child pinned to one processor.
-func replayOneCPU(path string) bool {
+func replayOneCPU(path string) (oneCPU, cpuQuota bool) {
 	b, err := os.ReadFile(path)
 	if err != nil {
-		return false
+		return false, false
 	}
 	var rf struct {
-		OneCPU bool `json:"one_cpu"`
+		OneCPU   bool `json:"one_cpu"`
+		CPUQuota bool `json:"cpu_quota"`
 	}
 	json.Unmarshal(b, &rf)
-	return rf.OneCPU
+	return rf.OneCPU, rf.CPUQuota
 }
 
 func replayCmd(path string) int {
